@@ -58,21 +58,25 @@ package tacquito
 // ---------------------------------------------------------------------------
 
 //@ func (v *Version) MarshalBinary() (res []byte, err error)
+//@   props C01 C02 C03
 //@   requires v != nil
 //@   ensures (err == nil) == valid.Version(*v)
 //@   ensures[C01,C03] err == nil ==> len(res) == 1 && res[0] == v.MajorVersion*16 + v.MinorVersion
 //@   ensures err != nil ==> res == nil
 
 //@ func (v *Version) UnmarshalBinary(data []byte) (err error)
+//@   props C01 C04
 //@   requires v != nil && len(data) >= 1
 //@   modifies *v
 //@   ensures err == nil && v.MajorVersion == data[0] div 16 && v.MinorVersion == data[0] mod 16
 
 //@ func (h *Header) Validate() (err error)
+//@   props C02 C04 C06
 //@   requires h != nil
 //@   ensures (err == nil) == valid.Header(*h)
 
 //@ func (h *Header) MarshalBinary() (res []byte, err error)
+//@   props C02
 //@   requires h != nil
 //@   ensures (err == nil) == valid.Header(*h)
 //@   ensures[C01] err == nil ==> wire.Header(*h, res)
@@ -80,6 +84,7 @@ package tacquito
 //@   ensures fresh(res)
 
 //@ func (h *Header) UnmarshalBinary(data []byte) (err error)
+//@   props C01 C03 C04 C06
 //@   requires h != nil
 //@   modifies *h
 //@   ensures (err == nil) == (len(data) >= 12 && valid.Header(*h))
@@ -99,11 +104,13 @@ package tacquito
 // ---------------------------------------------------------------------------
 
 //@ func (a *AuthenStart) Validate() (err error)
+//@   props C02 C04
 //@   requires a != nil
 //@   ensures (err == nil) == (valid.AuthenStart(*a) && fits.AuthenStart(*a))
 //@   ensures[C19] typeOf(err) != *BadSecretErr
 
 //@ func (a *AuthenStart) MarshalBinary() (res []byte, err error)
+//@   props C02
 //@   requires a != nil
 //@   ensures (err == nil) == (valid.AuthenStart(*a) && fits.AuthenStart(*a))
 //@   ensures[C01] err == nil ==> wire.AuthenStart(*a, res)
@@ -112,6 +119,7 @@ package tacquito
 //@   ensures[C06] err == nil ==> res != nil && len(res) <= 4294967295
 
 //@ func (a *AuthenStart) UnmarshalBinary(data []byte) (err error)
+//@   props C02 C04 C10
 //@   requires a != nil
 //@   modifies *a
 //@   ensures err == nil ==> valid.AuthenStart(*a) && fits.AuthenStart(*a)
@@ -131,11 +139,13 @@ package tacquito
 //@   ensures[C19] clean.AuthenStart(data)
 
 //@ func (a *AuthenReply) Validate() (err error)
+//@   props C02 C04
 //@   requires a != nil
 //@   ensures (err == nil) == (valid.AuthenReply(*a) && fits.AuthenReply(*a))
 //@   ensures[C19] typeOf(err) != *BadSecretErr
 
 //@ func (a *AuthenReply) MarshalBinary() (res []byte, err error)
+//@   props C02
 //@   requires a != nil
 //@   ensures (err == nil) == (valid.AuthenReply(*a) && fits.AuthenReply(*a))
 //@   ensures[C01] err == nil ==> wire.AuthenReply(*a, res)
@@ -144,6 +154,7 @@ package tacquito
 //@   ensures[C06] err == nil ==> res != nil && len(res) <= 4294967295
 
 //@ func (a *AuthenReply) UnmarshalBinary(data []byte) (err error)
+//@   props C02 C04
 //@   requires a != nil
 //@   modifies *a
 //@   ensures err == nil ==> valid.AuthenReply(*a) && fits.AuthenReply(*a)
@@ -158,11 +169,13 @@ package tacquito
 //@   ensures[C19] clean.AuthenReply(data)
 
 //@ func (a *AuthenContinue) Validate() (err error)
+//@   props C02 C04
 //@   requires a != nil
 //@   ensures (err == nil) == (valid.AuthenContinue(*a) && fits.AuthenContinue(*a))
 //@   ensures[C19] typeOf(err) != *BadSecretErr
 
 //@ func (a *AuthenContinue) MarshalBinary() (res []byte, err error)
+//@   props C02
 //@   requires a != nil
 //@   ensures (err == nil) == (valid.AuthenContinue(*a) && fits.AuthenContinue(*a))
 //@   ensures[C01] err == nil ==> wire.AuthenContinue(*a, res)
@@ -171,6 +184,7 @@ package tacquito
 //@   ensures[C06] err == nil ==> res != nil && len(res) <= 4294967295
 
 //@ func (a *AuthenContinue) UnmarshalBinary(data []byte) (err error)
+//@   props C02 C04
 //@   requires a != nil
 //@   modifies *a
 //@   ensures err == nil ==> valid.AuthenContinue(*a) && fits.AuthenContinue(*a)
@@ -196,11 +210,13 @@ package tacquito
 // ---------------------------------------------------------------------------
 
 //@ func (a *AcctReply) Validate() (err error)
+//@   props C02 C04
 //@   requires a != nil
 //@   ensures (err == nil) == (valid.AcctReply(*a) && fits.AcctReply(*a))
 //@   ensures[C19] typeOf(err) != *BadSecretErr
 
 //@ func (a *AcctReply) MarshalBinary() (res []byte, err error)
+//@   props C02
 //@   requires a != nil
 //@   ensures (err == nil) == (valid.AcctReply(*a) && fits.AcctReply(*a))
 //@   ensures[C01] err == nil ==> wire.AcctReply(*a, res)
@@ -209,6 +225,7 @@ package tacquito
 //@   ensures[C06] err == nil ==> res != nil && len(res) <= 4294967295
 
 //@ func (a *AcctReply) UnmarshalBinary(data []byte) (err error)
+//@   props C02 C04
 //@   requires a != nil
 //@   modifies *a
 //@   ensures err == nil ==> valid.AcctReply(*a) && fits.AcctReply(*a)
@@ -261,6 +278,7 @@ package tacquito
 // (-1 before the first), as in go/ssa.
 
 //@ func (a *AuthorRequest) Validate() (err error)
+//@   props C02 C04
 //@   requires a != nil
 //@   ensures (err == nil) == (valid.AuthorRequest(*a) && fits.AuthorRequest(*a))
 //@   ensures[C19] typeOf(err) != *BadSecretErr
@@ -273,6 +291,7 @@ package tacquito
 //@   loop 1 invariant sum == len(a.User) + len(a.Port) + len(a.RemAddr) + sumLen(a.Args, rangeindex + 1)
 
 //@ func (a *AuthorRequest) MarshalBinary() (res []byte, err error)
+//@   props C02
 //@   requires a != nil
 //@   ensures (err == nil) == (valid.AuthorRequest(*a) && fits.AuthorRequest(*a))
 //@   ensures[C01] err == nil ==> wire.AuthorRequest(*a, res)
@@ -299,6 +318,7 @@ package tacquito
 //@        fieldAt(buf, 8 + len(a.Args) + len(a.User) + len(a.Port) + len(a.RemAddr) + sumLen(a.Args, j), a.Args[j])
 
 //@ func (a *AuthorRequest) UnmarshalBinary(data []byte) (err error)
+//@   props C02 C04
 //@   requires a != nil
 //@   modifies *a
 //@   ensures err == nil ==> valid.AuthorRequest(*a) && fits.AuthorRequest(*a)
@@ -340,6 +360,7 @@ package tacquito
 //@   loop 2 invariant[case2] forall j int, i int :: 0 <= j && j <= rangeindex && 0 <= i && i < len(f.Args[j]) ==> a.Args[j][i] == f.Args[j][i]
 
 //@ func (a *AuthorReply) Validate() (err error)
+//@   props C02 C04
 //@   requires a != nil
 //@   ensures (err == nil) == (valid.AuthorReply(*a) && fits.AuthorReply(*a))
 //@   ensures[C19] typeOf(err) != *BadSecretErr
@@ -352,6 +373,7 @@ package tacquito
 //@   loop 1 invariant sum == len(a.ServerMsg) + len(a.Data) + sumLen(a.Args, rangeindex + 1)
 
 //@ func (a *AuthorReply) MarshalBinary() (res []byte, err error)
+//@   props C02
 //@   requires a != nil
 //@   ensures (err == nil) == (valid.AuthorReply(*a) && fits.AuthorReply(*a))
 //@   ensures[C01] err == nil ==> wire.AuthorReply(*a, res)
@@ -379,6 +401,7 @@ package tacquito
 //@        fieldAt(buf, 6 + len(a.Args) + len(a.ServerMsg) + len(a.Data) + sumLen(a.Args, j), a.Args[j])
 
 //@ func (a *AuthorReply) UnmarshalBinary(data []byte) (err error)
+//@   props C02 C04
 //@   requires a != nil
 //@   modifies *a
 //@   ensures err == nil ==> valid.AuthorReply(*a) && fits.AuthorReply(*a)
@@ -422,6 +445,7 @@ package tacquito
 // ---------------------------------------------------------------------------
 
 //@ func (a *AcctRequest) Validate() (err error)
+//@   props C02 C04
 //@   requires a != nil
 //@   ensures (err == nil) == (valid.AcctRequest(*a) && fits.AcctRequest(*a))
 //@   ensures[C19] typeOf(err) != *BadSecretErr
@@ -434,6 +458,7 @@ package tacquito
 //@   loop 1 invariant sum == len(a.User) + len(a.Port) + len(a.RemAddr) + sumLen(a.Args, rangeindex + 1)
 
 //@ func (a *AcctRequest) MarshalBinary() (res []byte, err error)
+//@   props C02
 //@   requires a != nil
 //@   ensures (err == nil) == (valid.AcctRequest(*a) && fits.AcctRequest(*a))
 //@   ensures[C01] err == nil ==> wire.AcctRequest(*a, res)
@@ -460,6 +485,7 @@ package tacquito
 //@        fieldAt(buf, 9 + len(a.Args) + len(a.User) + len(a.Port) + len(a.RemAddr) + sumLen(a.Args, j), a.Args[j])
 
 //@ func (a *AcctRequest) UnmarshalBinary(data []byte) (err error)
+//@   props C02 C04
 //@   requires a != nil
 //@   modifies *a
 //@   ensures err == nil ==> valid.AcctRequest(*a) && fits.AcctRequest(*a)
